@@ -100,7 +100,7 @@ func genFmtCase(t *rapid.T, disagree bool) FmtCase {
 			for j := 0; j < m; j++ {
 				sb.WriteString(rapid.SampledFrom(rawTokens).Draw(t, "tok"))
 			}
-			sb.WriteString(rapid.SampledFrom([]string{"\n", "\n", "\n", "\n", "\n", "\r\n", "\n\n", "\r\r\n", "\r\r\r\n"}).Draw(t, "raweol"))
+			sb.WriteString(rapid.SampledFrom([]string{"\n", "\n", "\n", "\n", "\n", "\r\n", "\n\n", "\r\r\n", "\r\r\r\n", "\r\r\r\r\n", "\r\r\r\r\r\r\r\n"}).Draw(t, "raweol"))
 		}
 		c.Raw = sb.String()
 		if rapid.IntRange(0, 3).Draw(t, "rawnofinal") == 0 {
